@@ -59,6 +59,9 @@ pub fn new_fimg(chunk_len: usize,set_time: bool,path: &str) -> Result<super::Fil
 pub struct Packer {
 }
 
+/// cap on directory nesting, guards against cycles in a damaged directory tree
+const MAX_DIRECTORY_DEPTH: usize = 64;
+
 /// The primary interface for disk operations.
 pub struct Disk {
     img: Box<dyn img::DiskImage>,
@@ -888,6 +891,10 @@ impl Disk {
     fn glob_node(&mut self,pattern: &str,dir: &directory::Directory,case_sensitive: bool) -> Result<Vec<String>,DYNERR> {
         // this blindly searches everywhere, we could be more efficient by truncating based on the pattern
         let mut files = Vec::new();
+        if self.curr_path.len() > MAX_DIRECTORY_DEPTH {
+            error!("directory nesting not plausible, aborting");
+            return Err(Box::new(Error::BadFAT));
+        }
         let glob = match case_sensitive {
             true => globset::GlobBuilder::new(&pattern).literal_separator(true).build()?.compile_matcher(),
             false => globset::GlobBuilder::new(&pattern.to_uppercase()).literal_separator(true).build()?.compile_matcher()
@@ -927,7 +934,11 @@ impl Disk {
         Ok(files)
     }
     /// Output FAT directory as a JSON object, calls itself recursively
-    fn tree_node(&mut self,dir: &directory::Directory,include_meta: bool) -> Result<json::JsonValue,DYNERR> {
+    fn tree_node(&mut self,dir: &directory::Directory,include_meta: bool,depth: usize) -> Result<json::JsonValue,DYNERR> {
+        if depth > MAX_DIRECTORY_DEPTH {
+            error!("directory nesting not plausible, aborting");
+            return Err(Box::new(Error::BadFAT));
+        }
         const DATE_FMT: &str = "%Y/%m/%d";
         const TIME_FMT: &str = "%H:%M";
         let mut files = json::JsonValue::new_object();
@@ -948,7 +959,7 @@ impl Disk {
                     if let Some(ptr) = finfo.cluster1 {
                         trace!("descend into directory {}",key);
                         let subdir = self.get_directory(&Some(ptr))?;
-                        files[&key]["files"] = self.tree_node(&subdir,include_meta)?;
+                        files[&key]["files"] = self.tree_node(&subdir,include_meta,depth+1)?;
                     }
                 }
                 if include_meta {
@@ -1105,7 +1116,7 @@ impl super::DiskFS for Disk {
         let (vol,dir) = self.get_root_dir()?;
         let mut tree = json::JsonValue::new_object();
         tree["file_system"] = json::JsonValue::String(FS_NAME.to_string());
-        tree["files"] = self.tree_node(&dir,include_meta)?;
+        tree["files"] = self.tree_node(&dir,include_meta,0)?;
         tree["label"] = json::JsonValue::new_object();
         tree["label"]["name"] = json::JsonValue::String(vol);
         if let Some(spaces) = indent {
